@@ -55,7 +55,8 @@ def snap(x):
 
 
 def construct(case, pose, num):
-    args = [mk_point([p[0], p[1], p[2], 1], pose, num) for p in case["args0"]]
+    kinds = case.get("argk") or ["P"] * len(case["args0"])
+    args = [mk_point([p[0], p[1], p[2], 1], pose, num) if kd == "P" else vec(p, pose, num) for p, kd in zip(case["args0"], kinds)]
     objs = []
     for d, h in zip(case["build"], case["heap0"]):
         k, a = d["k"], [i - 1 for i in d["args"]]
@@ -65,6 +66,10 @@ def construct(case, pose, num):
             objs.append(HalfLine(args[a[0]], args[a[1]]))
         elif k == "Line":
             objs.append(Line(args[a[0]], args[a[1]]))
+        elif k == "SegmentPV":
+            objs.append(Segment(args[a[0]], args[a[1]]))
+        elif k == "HalfLinePV":
+            objs.append(HalfLine(args[a[0]], args[a[1]]))
         elif k == "Polygon":
             objs.append(ConvexPolygon(tuple(args[i] for i in a)))
         elif k == "Polyhedron":
@@ -158,10 +163,13 @@ def replay_case(case, tag, rng, tier):
                 bad("C20.own_move", "moving object %d changed objects %r that were built from it" % (i, changed), n, {"kind": cur[i]["k"]})
         elif e["act"] == "Mutate":
             k = e["k"] - 1
-            if rng.random() < 0.5:
-                call(args[k].move, vec(e["v"], pose, num))
+            d = vec(e["v"], pose, num)
+            if isinstance(args[k], Vector):
+                for ax in range(3):                      # in-place coordinate assignment on a shared Vector
+                    args[k][ax] = args[k][ax] + d[ax]
+            elif rng.random() < 0.5:
+                call(args[k].move, d)
             else:
-                d = vec(e["v"], pose, num)
                 args[k].x = args[k].x + d[0]
                 args[k].y = args[k].y + d[1]
                 args[k][2] = args[k].z + d[2]
